@@ -75,11 +75,23 @@ class FitHistory:
         self.seen = []
         self.zero = False
         self.repeat = False
+        self.appended = False
 
     def apply(self, op):
         from pyvaporation import find_best_fit, fit
 
         name = op["op"]
+        if name == "append":
+            # the CALLER extends its data (a new point, possibly at a new temperature) - later fits must see exactly the new data
+            from pyvaporation.optimizer.optimizer import Measurement
+
+            pt = [op["x"], op["t"], op["p"] * (self.points[0][2] if self.points else 1.0)]
+            self.data.append(Measurement(x=pt[0], t=pt[1], p=pt[2]))
+            self.points = self.points + [pt]
+            self.before = snapshot(self.data)
+            self.first = {}
+            self.appended = True
+            return
         if name == "repeat":
             if not self.seen:
                 return
@@ -127,14 +139,16 @@ class FitHistory:
 
     def summary(self):
         return {"nontrivial": (self.zero or self.repeat) and len(self.seen) >= 2, "classes": ["calls=%d" % len(self.seen)] +
-                (["zero-points"] if self.zero else []) + (["repeat"] if self.repeat else [])}
+                (["zero-points"] if self.zero else []) + (["repeat"] if self.repeat else []) + (["append"] if self.appended else [])}
 
     def close(self):
         pass
 
 
 def fit_machine(tier, stats):
-    rules = {"fit": call_args(tier), "find_best_fit": call_args(tier), "repeat": st.fixed_dictionaries({"which": st.integers(0, 5)})}
+    rules = {"fit": call_args(tier), "find_best_fit": call_args(tier), "repeat": st.fixed_dictionaries({"which": st.integers(0, 5)}),
+             "append": st.fixed_dictionaries({"x": gen.uniform(0.02, 0.98), "t": st.one_of(gen.uniform(290.0, 380.0), st.just(300.0)),
+                                              "p": gen.uniform(0.5, 2.0)})}
     return history_machine("fit-histories", FitHistory, data_strategy(24 if tier == "quick" else 40), rules, stats, max_ops=6)
 
 
